@@ -309,6 +309,12 @@ ConnectorResult(res) ==
   /\ Quiescent /\ s.pc = "connecting" /\ s.connRes = "none" /\ out' = NoOut
   /\ s' = [s EXCEPT !.connRes = res]
 
+\* the attempt completes in the same instant in which a command was handed in: both branches of the
+\* task's select! are ready and either may be taken first
+ConnectorResultRacing(res) ==
+  /\ s.pc = "connecting" /\ s.connRes = "none" /\ out' = NoOut
+  /\ s' = [s EXCEPT !.connRes = res]
+
 (* session mode: the harness runs the loop again on a new connection *)
 NewConnection ==
   /\ Quiescent /\ s.mode = "session" /\ s.pc = "ended" /\ out' = NoOut
